@@ -457,6 +457,25 @@ fn case(prop: u32, sub: &str, id: u64, ctx: &Ctx, r: &mut Report) {
             r.distinct(hkey(&[&"unseeded"]));
         }
         // BlockRng<Hc128Core> built by hand equals Hc128Rng (same stream via the wrapper)
+        "wrapper" if prop == 3 => {
+            // hand-built BlockRng / BlockRng64 around the public cores equal the Rng types
+            use rand_core::block::BlockRng64;
+            let seed: [u8; 32] = p.bytes(32).try_into().unwrap();
+            let mut a = rand_isaac::IsaacRng::from_seed(seed);
+            let mut b = BlockRng::new(rand_isaac::isaac::IsaacCore::from_seed(seed));
+            let mut c = rand_isaac::Isaac64Rng::from_seed(seed);
+            let mut d = BlockRng64::new(rand_isaac::isaac64::Isaac64Core::from_seed(seed));
+            for k in 0..700 {
+                r.eval();
+                let (x, y) = if k % 3 == 0 { (a.next_u64(), b.next_u64()) } else { (a.next_u32() as u64, b.next_u32() as u64) };
+                let (u, v) = if k % 3 == 1 { (c.next_u32() as u64, d.next_u32() as u64) } else { (c.next_u64(), d.next_u64()) };
+                if x != y || u != v {
+                    r.violation("IsaacRng!=BlockRng<IsaacCore>".into(), sub, id, json!({"seed": hex(&seed), "position": k}));
+                    break;
+                }
+            }
+            r.distinct(hkey(&[&"wrapper", &seed[..].to_vec()]));
+        }
         "wrapper" => {
             let seed = p.bytes(32);
             let mut a = rand_hc::Hc128Rng::from_seed(seed.clone().try_into().unwrap());
@@ -544,6 +563,9 @@ pub fn run(prop: u32, ctx: &Ctx, only: Option<&Only>) -> Report {
             }
         }));
         total.merge(drive(ctx, "core", ctx.n(400, 4_000), secs * 0.1, |id, r| case(prop, "core", id, ctx, r)));
+    }
+    if prop == 3 {
+        total.merge(drive(ctx, "wrapper", 64, 0.0, |id, r| case(prop, "wrapper", id, ctx, r)));
     }
     if prop == 2 {
         total.merge(drive(ctx, "wrapper", 64, 0.0, |id, r| case(prop, "wrapper", id, ctx, r)));
